@@ -1039,3 +1039,15 @@ def tds_init(pid):
                  modifies=['self.*', 'self.system.dae.*', 'self.system.switch_times', 'self.system.n_switches'])
     c.check_bounds = False
     return c
+
+
+def replay_itm_matrix(obligation=None, model=None, meta=None):
+    """native: the matrix calc_jac returns is the derivative of the residual calc_q defines, for both methods (contracts/bounded_itm_matrix.py)"""
+    from contracts import bounded_itm_matrix
+    n, bad = bounded_itm_matrix.run()
+    if bad:
+        return {'confirmed': True, 'inputs': bad, 'observed': bad.get('observed'), 'native_cmd': 'contracts/bounded_itm_matrix.py'}
+    return {'confirmed': False, 'tried': n}
+
+
+replay_itm_matrix.real_system = True
